@@ -1,6 +1,7 @@
 import RaftVerif.Model.Quorum
 import RaftVerif.Model.Parse
 import RaftVerif.Model.RawNode
+import RaftVerif.Spec.Check
 /-!
 Line-protocol driver (compiled as `raftmodel`): one operation per input line, one answer per line.
 See DESIGN.md Appendix B. Core Lean only.
@@ -139,6 +140,7 @@ inductive Slot where
 structure DriverState where
   nodes : List (Nat × Slot) := []
   verbose : Bool := false
+  spec : Spec.Checker := {}
 
 def DriverState.get (st : DriverState) (k : Nat) : Option Slot := Quorum.lookup st.nodes k
 def DriverState.put (st : DriverState) (k : Nat) (s : Slot) : DriverState :=
@@ -280,6 +282,25 @@ def step (st : DriverState) (line : String) : DriverState × String :=
   match splitOn1 line.trimAscii.toString ' ' with
   | "q" :: args => (st, cmdQuorum args)
   | ["verbose", v] => ({ st with verbose := v == "1" }, "ok")
+  | ["sp", "init", c0, c1] =>
+    ({ st with spec := { cfg := Spec.jointCfg (idList c0) (idList c1) } }, "ok")
+  | "sp" :: "a" :: rest =>
+    let (c, out) := st.spec.act rest
+    ({ st with spec := c }, out)
+  | "sp" :: "cmp" :: n :: rest =>
+    match st.spec.failed with
+    | some _ => (st, "skipped")
+    | none =>
+      let want := " ".intercalate rest
+      let got := Spec.nodeText st.spec.st (natOrZero n)
+      if want == got then (st, "ok") else (st, s!"DIFF spec=[{got}] impl=[{want}]")
+  | "sp" :: "cmpd" :: n :: rest =>
+    match st.spec.failed with
+    | some _ => (st, "skipped")
+    | none =>
+      let want := " ".intercalate rest
+      let got := Spec.verText (st.spec.st.nodes (natOrZero n)).dur
+      if want == got then (st, "ok") else (st, s!"DIFF spec-dur=[{got}] impl=[{want}]")
   | "n" :: k :: op :: rest =>
     let k := natOrZero k
     let (args, draws) := splitDraws rest
